@@ -37,6 +37,7 @@ _p("C10", ["instances"], ["pipeline"], "Relevance tests and the per-triple step 
 _p("C16", ["instances"], ["pipeline"], "Counter invariant of the instance cap (every class counter <= limit, rejected exactly when full, early stop only when all target classes are full) is proved per step; "
    "namespace filter and composition: " + MON)
 _p("C03", ["shexing"], [], "wip")
+_p("C04", ["shexing", "c20_config"], [], "wip")
 for pid in ("C01", "C02", "C09", "C12", "C13", "C14"):
     _p(pid, [], ["pipeline"], MON)
 
